@@ -920,6 +920,10 @@ func genG1(seed uint64, prop string) *Scenario {
 		cfg.Hooks = []string{"post", "both"}[r.IntN(2)]
 		cfg.VRFMode = []string{"opt", "late"}[r.IntN(2)]
 	}
+	if prop != "C16" && r.IntN(3) == 0 {
+		// the embedding device creates its VRFs after the server has been constructed (Server.AddNetworkInstance)
+		cfg.VRFMode = "late"
+	}
 	if r.IntN(6) == 0 {
 		cfg.VRFs = []string{"VRF-A"}
 	}
